@@ -19,16 +19,21 @@ RULE = ("cases = path (validator-API endpoint | peer message) x object kind (12)
         "validator x ONE alteration of an otherwise valid submission (signed by another share / another validator's share, "
         "3 foreign domains, other fork version, every signed content field changed after signing, validator unknown to the "
         "beacon node / to the lock, zero and non-point signature, agreed proposal differs, bad embedded selection proof, "
-        "two-entry request with one bad entry; peer: share index 0 / n+1 / another peer's, duty beyond / at the edge of the "
-        "gater window, every other claimed duty type), ENUMERATED by TLC from specs/Admission (N=4 shares, V=3 validators); "
-        "quick: at least one case of every (path, kind, alteration, argument) class plus a seeded sample, thorough: all; each "
+        "two-entry request with one bad entry; slot and attestation target epoch on opposite sides of a fork activation, "
+        "signed with the fork version of the type's epoch source (must enter) or of the other time field (must not); peer: "
+        "share index 0 / n+1 / another peer's, duty beyond / at the edge of the gater window, duty slot 2^63 / 2^63+now / "
+        "2^64-1, every other claimed duty type), ENUMERATED by TLC from specs/Admission (N=4 shares, V=3 validators); the "
+        "executor signs from the model's own tables (domain name and epoch source per type, carried in the schedule); "
+        "quick: stratified - at least one case of every (path, kind, alteration, argument) class, every data version for "
+        "the unaltered and the fork-straddling cases - plus a seeded sample, thorough: all; each "
         "case is instantiated with real eth2 objects and threshold BLS shares and sent through the real handler; distinct = "
         "distinct (case, recorded outcome) pairs")
 ASSUMPTIONS = [
     "crypto abstraction: a signature verifies under a key share for an object iff that share made it over that object's root with "
     "that object's domain and fork version (herumi BLS is exercised for real in the executor; no forgery is attempted)",
-    "beacon node = testutil/beaconmock (fork schedule of its static spec: contents in epoch 100, 'other fork' = epoch 4196); the "
-    "real core.NewDutyGater with a fixed clock (current epoch 100, 2 future epochs allowed); parsigex's handler is entered through "
+    "beacon node = testutil/beaconmock (fork schedule of its static spec: contents in epoch 100, 'other fork' = epoch 4196, "
+    "fork-straddling objects around its first later activation, epoch 2048); the real core.NewDutyGater with a driver-set "
+    "clock (the object's slot; 2 future epochs allowed); parsigex's handler is entered through "
     "the build-tag hook VerifHandle with the real NewEth2Verifier",
     "scheduler / DutyDB / AggSigDB inputs of the validator API are stubs: the scheduled proposer and the agreed proposal are the "
     "case's, attester duties place validator v at position v of committee 7",
@@ -41,7 +46,10 @@ CONTROLS = [("AdmissionMC_ctl_dropverify.cfg", "verifyPartialSig dropped from Su
             ("AdmissionMC_ctl_dropverify_att.cfg", "verifyPartialSig dropped from SubmitAttestations"),
             ("AdmissionMC_ctl_nopropmatch.cfg", "propDataMatchesDuty skipped"),
             ("AdmissionMC_ctl_nogater.cfg", "duty gater bypassed in parsigex.handle"),
-            ("AdmissionMC_ctl_senderidx.cfg", "verifier looks the share up by the sender, not data.ShareIdx")]
+            ("AdmissionMC_ctl_senderidx.cfg", "verifier looks the share up by the sender, not data.ShareIdx"),
+            ("AdmissionMC_ctl_swapepoch_att.cfg", "attestation domain taken from the slot's fork, not the target epoch's"),
+            ("AdmissionMC_ctl_swapepoch_agg.cfg", "aggregate domain taken from the target epoch's fork, not the slot's"),
+            ("AdmissionMC_ctl_signedgater.cfg", "duty gater in int64: a duty slot >= 2^63 passes")]
 
 
 def design_check(o, thorough):
@@ -79,22 +87,25 @@ def enumerate_cases(sdir):
     return out, r
 
 
+PER_VERSION = ("none", "straddleOK", "straddleBad", "wrongFork")
+
+
 def cls(s):
+    """Stratum of a case: everything but node / validator (and the share argument); the data version too where the
+    handlers' epoch / root code is per version."""
     c = s[1]["c"]
-    return (c["path"], c["kind"], c["alt"], c["as"], c["ai"] if c["alt"] == "dutyType" else 0)
+    return (c["path"], c["kind"], c["alt"], c["as"], c["ai"] if c["alt"] == "dutyType" else 0,
+            c["ver"] if c["alt"] in PER_VERSION else "")
 
 
 def select(cases, seed, n):
-    """Every class at least once (with seeded choice of version / node / validator), then a seeded sample."""
+    """Stratified: every class at least once (seeded choice of node / validator / remaining version), then a seeded
+    sample of the rest."""
     r = vlib.rng(seed, "c10")
     by = {}
     for i, s in enumerate(cases):
         by.setdefault(cls(s), []).append(i)
     pick = {r.choice(v) for v in by.values()}
-    # every data version of every versioned kind unaltered on both paths
-    for i, s in enumerate(cases):
-        if s[1]["c"]["alt"] == "none" and s[1]["c"]["node"] == 1 + seed % 4 and s[1]["c"]["val"] == 1 + seed % 3:
-            pick.add(i)
     rest = [i for i in range(len(cases)) if i not in pick]
     r.shuffle(rest)
     pick |= set(rest[:max(0, n - len(pick))])
